@@ -341,8 +341,8 @@ class LiteralMethod(DeserializationMethod):
                 for cls in self.types:
                     try:
                         return self.value_map[self.coercer(cls, data)]
-                    except (KeyError, ValidationError):
-                        pass
+                    except (KeyError, TypeError, ValidationError):
+                        pass  # TypeError: unhashable result of a custom coercer
             raise ValidationError(format_error(self.error, data))
         except TypeError:
             raise bad_type(data, *self.types)
